@@ -122,13 +122,64 @@ def observer_configs(ctx, tg, wd, tfile):
     return res
 
 
+def tail_configs(ctx, wd):
+    """(family st3drv, seeds C12-I / C12-J) grids whose tails hold exact zeros and denormal numbers, with self-interaction, compared
+    across cadences that include 'never' (outstep 0) and 'first and last only': (a) narrow starts (--InitialDistZoom 0.25..0.35 on
+    24/32 cells: the energy rows beyond ~14 sigma_0 are exactly 0 at step 0 and fill up while damping/diffusion and the wake widen the
+    bunch - anything that is determined at a write-out and used by the steps in between (a row range, a cached extent) shows as a
+    dependence on the cadence); (b) wide extents (-P 32/40 on 64 cells: cells beyond 13 sigma hold denormal numbers - a step that runs
+    under another floating-point environment after the first write-out (FTZ/DAZ, rounding mode) differs from the run that never
+    writes); (c) a start from a particle file with a few hundred particles (most rows exactly empty).
+    Returns [(kind, base, variants)]; the reference is the every-step run as everywhere else."""
+    rng = ctx.rng
+    res = []
+    txt = os.path.join(wd, "tail_start.txt")
+    with open(txt, "w") as f:
+        for _ in range(rng.randint(60, 160)):
+            f.write("%.6f %.6f\n" % (rng.gauss(0, 0.5), rng.gauss(0, 0.5)))
+    kinds = [("narrow", dict(n=rng.choice([24, 32]), extra=["--InitialDistZoom", rng.choice(["0.25", "0.3", "0.35"])])),
+             ("narrow", dict(n=rng.choice([24, 32]), extra=["--InitialDistZoom", rng.choice(["0.25", "0.3"])])),
+             ("wide", dict(n=64, extra=["-P", rng.choice(["32", "40"])])),
+             ("wide-narrow", dict(n=64, extra=["-P", "32", "--InitialDistZoom", "0.5"])),
+             ("particles", dict(n=rng.choice([24, 32]), extra=["-i", txt], _prov=dict(start_txt=open(txt).read())))]
+    if not ctx.quick():
+        kinds += [("wide", dict(n=128, extra=["-P", "32"])), ("narrow", dict(n=48, extra=["--InitialDistZoom", "0.3"]))]
+    for i, (kind, kw) in enumerate(kinds):
+        N = rng.choice([6, 8, 10]) if kind.startswith("wide") else rng.choice([8, 12, 20])
+        k = rng.choice([3, 4, 5])
+        base = dict(n=kw["n"], N=N, T=1, renorm=(0, k)[i % 2], wake=True, dynrf=False, outstep=1, h5save=1, tracking=None,
+                    verbose=False, extra=kw["extra"], _prov=kw.get("_prov") or {})
+        L = dc.laststep(base)
+        cop = rng.choice([c for c in (3, 5, 7) if c < L and L % c]) if L > 4 else 3
+        vs = [dict(base, outstep=0, h5save=0, tag="tail_never"),
+              dict(base, outstep=L, h5save=1, tag="tail_firstlast"),
+              dict(base, outstep=cop, h5save=2, tag="tail_o%d" % cop),
+              dict(base, outstep=L // 2 + 1, h5save=0, verbose=True, tag="tail_half_verbose")]
+        res.append((kind, base, vs))
+    return res
+
+
+def tail_census(href, n):
+    """(energy rows that are exactly empty, cells holding denormal numbers) in the first phase-space record of the reference"""
+    try:
+        row = [float.fromhex(t) for t in href["/PhaseSpace/data"]["rows"][0]]
+    except Exception:
+        return 0, 0
+    cells = len(row) // (n * n) * n * n
+    empty = sum(1 for y in range(n) if all(row[x * n + y] == 0 for x in range(n))) if cells else 0
+    den = sum(1 for v in row if v != 0 and abs(v) < 2.0 ** -126)
+    return empty, den
+
+
 def classify(x, ref, var):
     """signature of one difference.  One situation gets a clause of its own (known finding initial-ps-record): the phase-space
     record of step 0 written by the prologue (`if (h5save == 0) append(.., PhaseSpace)`, "if not saved anyways") against the one the
     loop writes at step 0 AFTER `if (renormalize > 0 && step % renormalize == 0) integrateAndNormalize()`, for a start file"""
     sig = {"oracle": "cadence", "dataset": x.split(" ")[0]}
     if sig["dataset"] == "/PhaseSpace/data" and " record of step 0 " in x and (ref["h5save"] == 0) != (var["h5save"] == 0) \
-            and ref["renorm"] > 0 and "-i" in (ref.get("extra") or []):
+            and ref["renorm"] > 0 and any(o in (ref.get("extra") or []) for o in ("-i", "--InitialDistZoom", "-P")):
+        # (family st3drv) the same situation without a start file: a built-in Gaussian whose extent / zoom is not the default is
+        # normalised to the last bit only by that first renormalisation (observed: 1 ulp in the tail cells, zoom 0.25)
         sig["clause"] = "initial-phase-space-vs-step0-renormalisation"
     return sig
 
@@ -178,7 +229,9 @@ def run(ctx):
                 "RenormalizeCharge {<0, 0, k} x outstep {0, 1, coprime with k, multiple of k} on runs of 3k+2 steps; every record of every "
                 "variant compared bit for bit with the reference record of the same step; observer options (verbose, verbose with another "
                 "cadence, renamed output / other extension, tracking, no output steps) x start distribution {built-in, .h5 last record, .h5 chosen "
-                "record, .txt particles - files that do not hold unit charge} x RenormalizeCharge {0, k}; wisdom: configurations started in an "
+                "record, .txt particles - files that do not hold unit charge} x RenormalizeCharge {0, k}; tails: narrow starts (InitialDistZoom 0.25-0.35: "
+                "energy rows exactly empty at step 0), wide extents (-P 32/40 on 64 cells: denormal cells), a start from a few particles, all with "
+                "the wake, cadences {never, first and last only, coprime, half + verbose} against the every-step reference; wisdom: configurations started in an "
                 "EMPTY data directory and run through a history (3 runs, delete / garbage / copy of a wisdom file, directory removed or emptied, "
                 "runs in between): files named in 'Created some wisdom' lines exist, runs 2 and 3 plan nothing and agree bit for bit, every run "
                 "against the extracted wisdom machine over the generated prepareFFT table; non-trivial = at least one "
@@ -192,6 +245,8 @@ def run(ctx):
                     "FFTW wisdom shared through XDG_DATA_HOME")
     ctx.trusted.add("process-level determinism (uninitialised memory; FFTW's planner: that a plan re-created from stored wisdom is the stored plan) is "
                     "established by the repeated runs only, not by a theorem; the logic that stores and re-uses the wisdom is (C12_wisdom_after_one_run_nothing_is_planned)")
+    ctx.trusted.add("translate/fpenv2coq.py: lexical scan (names of FPFUNCS / PRAGMAS / ASMWORDS / BUILDFLAGS listed there) - a way of changing the "
+                    "floating-point environment that is not on those lists is not seen by the theorem, only by the tails runs")
     dis = []
     # decision rule: a broken proof/translation stage does not stop the check - the property oracle still runs on
     # the binary to look for a concrete failing input; only the model comparison is skipped
@@ -263,6 +318,25 @@ def run(ctx):
             check_pair(ctx, tg, base, href, var, wd, points, nsetup, dis, "o%d:" % bi)
             ctx.count("observer:%s:renorm%s" % (kind, "0" if base["renorm"] == 0 else "k"))
             ntr += 1
+    # tails: exact zeros / denormal numbers on the grid, cadences that include 'never' (family st3drv)
+    for bi, (kind, base, vs) in enumerate(tail_configs(ctx, wd)):
+        dc.run_real(tg, dict(base, outstep=0, h5save=0), os.path.join(wd, "warm.h5"), want_trace=False)
+        refout = os.path.join(wd, "tref%d.h5" % bi)
+        r = dc.run_real(tg, base, refout)
+        href = dc.h5read(tg, refout)
+        nsetup = len([l for l in r["labels"] if l.startswith("setup:")])
+        if href is None or r["rc"] != 0:
+            ctx.violation("impl-oracle", "reference run failed", case=dict(cmd=r["cmd"]), observed=r["log"][-400:],
+                          sig={"oracle": "run-failed"})
+            continue
+        empty, den = tail_census(href, base["n"])
+        for var in vs:
+            check_pair(ctx, tg, base, href, var, wd, points, nsetup, dis, "t%d:" % bi)
+            ctx.count("tails:%s:%s" % (kind, var["tag"].split("_")[1] if not var["tag"].startswith("tail_o") else "coprime"))
+            ntr += 1
+        ctx.count("tails:start-has-empty-energy-rows" if empty else "tails:start-without-empty-rows")
+        ctx.count("tails:start-has-denormal-cells" if den else "tails:start-without-denormals")
+        ctx.case_done(("tails", bi), empty > 0 or den > 0)
     # the wisdom directory as part of the input: data directories Inovesa never used, and what happens to them
     wisdom_cases.stage(ctx, tg, wd, bool(coq["make_ok"] and coq["extract_ok"] and os.path.exists(vp_coq.model_path("wisdom"))), dis)
     ctx.extra["traces_validated_against_impl"] = ntr
@@ -328,8 +402,9 @@ def replay(ctx, rp):
     wd = workdir(ctx)
     env = vp_build.xdg_env()
     if case.get("start_txt"):
-        with open(os.path.join(wd, "start.txt"), "w") as f:
-            f.write(case["start_txt"])
+        for fn in ("start.txt", "tail_start.txt"):
+            with open(os.path.join(wd, fn), "w") as f:
+                f.write(case["start_txt"])
     with open(os.path.join(wd, "track.txt"), "w") as f:
         f.write("0.5 0.25\n-1.0 0.5\n0.0 -0.75\n")
     for key in ("first_leg", "reference", "variant"):
@@ -341,7 +416,7 @@ def replay(ctx, rp):
     def cfg_of(a):
         g = lambda o, d=None: a[a.index(o) + 1] if o in a else d
         return dict(N=int(g("-N")), T=int(float(g("-T"))), h5save=int(g("--SavePhaseSpace")), renorm=int(g("--RenormalizeCharge")),
-                    extra=["-i"] if "-i" in a else [], tracking=g("--tracking"))
+                    extra=[o for o in ("-i", "--InitialDistZoom", "-P") if o in a], tracking=g("--tracking"))
     ca, cb = cfg_of(case["reference"]), cfg_of(case["variant"])
     ha, hb = dc.h5read(tg, os.path.join(wd, "ref.h5")), dc.h5read(tg, os.path.join(wd, "var.h5"))
     if ha is None or hb is None:
